@@ -19,7 +19,7 @@ PROP = 'C13'
 ENGINE = 'framing'
 LEVEL = 'exploration'
 INVARIANTS = ('delivery_mismatch', 'stalled_tail', 'invalid_frame_accepted', 'poll_exception', 'lost_message',
-              'spurious_disconnect', 'redial_failed')
+              'spurious_disconnect', 'redial_failed', 'stale_event_dispatched', 'lost_event')
 for _i in INVARIANTS:
     INV_PROP[_i] = PROP
 RULE = ('one case = one seeded sequence of send / poll / deliver(n bytes) / corrupt operations on a client and an accepted '
@@ -33,6 +33,9 @@ ASSUMPTIONS = ['SimNet follows TCP: FIFO byte stream per direction, no loss/dupl
                'no encryption (cryptography is not installed)']
 BUDGET = dict(quick=dict(runs=4000, wall=60, per_run_wall=30), thorough=dict(runs=400000, wall=900, per_run_wall=60))
 STATE_MEASURE = 'hash of (write-buffer bucket, read-buffer bucket, pipe fill buckets, connection states) after every op'
+
+
+_SAFE = bytes(b for b in range(256) if b not in (0x70, 0x72))
 
 
 def encode(msg):
@@ -311,7 +314,9 @@ class Frame(object):
             for n in range(l - 9, max(0, l - 60), -1):
                 for _ in range(3):
                     h = r.choice(heads)
-                    g = h + bytes(r.randrange(256) for _ in range(max(0, n - len(h))))
+                    # (no PUT / LONG_BINPUT opcodes in the filler: a random 4-byte memo index makes pickle.loads allocate
+                    # gigabytes before it fails - in the reference receiver as in the library; not the subject here)
+                    g = h + bytes(_SAFE[r.randrange(len(_SAFE))] for _ in range(max(0, n - len(h))))
                     c = zlib.compress(g, 3)
                     if len(c) == l:
                         blob = c
@@ -524,10 +529,193 @@ def _split_reads(F):
     return F.splits
 
 
+# ---------------------------------------------------------------------------------------------
+# poller batches: the repository's PollPoller / SelectPoller with callbacks that close, replace or
+# re-subscribe OTHER descriptors while one batch of events is handled (what TcpConnection and the
+# transport do: a handshake replaces a stale connection, a removed node is dropped, a dialler
+# dials again from its disconnect callback), with the kernel re-using descriptor numbers
+# ---------------------------------------------------------------------------------------------
+def draw_batch(rng, tier):
+    return dict(kind='pollerbatch', poller=rng.choice(['poll', 'select']), fd_reuse=rng.random() < 0.6,
+                n=rng.choice([2, 3, 4, 5]), shuffle=rng.random() < 0.5, nops=rng.choice([8, 20, 40]), cap=1 << 12)
+
+
+def gen_batch_ops(rng, cfg):
+    ops = []
+    n = cfg['n']
+    for _ in range(cfg['nops']):
+        r = rng.random()
+        if r < 0.3:
+            ops.append(['feed', rng.randrange(n)])
+        elif r < 0.36:
+            ops.append(['rst', rng.randrange(n)])
+        elif r < 0.7:
+            ops.append(['script', rng.randrange(n), rng.choice(['close', 'close', 'unsub', 'replace', 'replace', 'resub', 'none']), rng.randrange(n)])
+        else:
+            ops.append(['poll'])
+    return ops
+
+
+def execute_batch(seed, cfg, ops):
+    import hashlib
+    t0 = _time.time()
+    install()
+    from ..net import SimSocket
+    w = World(seed, dict(n_voters=2, cap=cfg['cap'], cpu_cost=1e-5, poller=cfg['poller'], fd_reuse=cfg['fd_reuse'],
+                         poll_shuffle=cfg['shuffle']), None)
+    CTX.world = w
+    net = w.net
+    w.cur = 0
+    PE = M.pl.POLL_EVENT_TYPE
+    poller = M.pl.PollPoller() if cfg['poller'] == 'poll' else M.pl.SelectPoller()
+    lst = SimSocket(net, 1)
+    lst.bind(('10.0.0.2', 4002))
+    lst.listen(5)
+    n = cfg['n']
+    slots = [None] * n            # slot -> dict(sock, fd)
+    subs = {}                     # fd -> (slot, sock): the harness' own record of who is subscribed under a number
+    script = {}
+    viol = []
+    stats = {}
+    calls = []
+    state = dict(batch_socks={}, polling=False, opno=0)
+
+    def flag(inv, msg):
+        if not any(v['inv'] == inv for v in viol):
+            viol.append(dict(inv=inv, prop=PROP, msg=msg, evno=state['opno'], detail=None))
+
+    def open_slot(i):
+        s = SimSocket(net, 0)
+        try:
+            s.connect(('10.0.0.2', 4002))
+        except BlockingIOError:
+            pass
+        net.resolve_connect(s.conn.cid, 'ok')
+        slots[i] = dict(sock=s, fd=s.fileno())
+        subscribe(i)
+
+    def subscribe(i):
+        sl = slots[i]
+        if sl is None:
+            return
+        fd = sl['fd']
+        subs[fd] = (i, sl['sock'])
+        poller.subscribe(fd, make_cb(i, sl['sock']), PE.READ | PE.ERROR)
+
+    def unsubscribe(i):
+        sl = slots[i]
+        if sl is None:
+            return
+        if subs.get(sl['fd'], (None, None))[1] is sl['sock']:
+            del subs[sl['fd']]
+            poller.unsubscribe(sl['fd'])
+
+    def close_slot(i):
+        # the order of TcpConnection.disconnect(): close the socket, then unsubscribe its number
+        sl = slots[i]
+        if sl is None:
+            return
+        sl['sock'].close()
+        unsubscribe(i)
+        slots[i] = None
+
+    def make_cb(i, sock):
+        def cb(descr, event):
+            calls.append((i, descr, event))
+            cur = subs.get(descr)
+            seen = state['batch_socks'].get(descr)
+            if cur is None:
+                flag('stale_event_dispatched', 'the callback of descriptor %d (slot %d) was called although the descriptor had been unsubscribed earlier in the same batch of events' % (descr, i))
+            elif cur[1] is not sock:
+                flag('stale_event_dispatched', 'an event of descriptor %d reached the callback of an older subscription (slot %d) after the number was subscribed again for another socket' % (descr, i))
+            elif seen is not None and seen is not sock:
+                flag('stale_event_dispatched', 'events %d computed for a socket that was closed meanwhile were handed to the new socket that got its descriptor number %d (slot %d)' % (event, descr, i))
+            a = script.pop(i, None)
+            if a is not None:
+                act, j = a
+                stats['act_' + act] = stats.get('act_' + act, 0) + 1
+                if act == 'close':
+                    close_slot(j)
+                elif act == 'unsub':
+                    unsubscribe(j)
+                elif act == 'resub':
+                    unsubscribe(j)
+                    subscribe(j)
+                elif act == 'replace':
+                    close_slot(j)
+                    open_slot(j)
+        return cb
+
+    for i in range(n):
+        open_slot(i)
+    dig = hashlib.sha256()
+    states = set()
+
+    def do_poll():
+        # which socket is behind each subscribed number at the moment the events are computed
+        state['batch_socks'] = dict((fd, net.socks.get(fd)) for fd in subs)
+        ready = [fd for fd, (i, sk) in subs.items() if sk.ready() & (R | E)]
+        before = len(calls)
+        try:
+            poller.poll(0)
+        except HarnessError:
+            raise
+        except Exception as e:
+            flag('poll_exception', 'poll() raised %r while callbacks of the batch closed / replaced other descriptors' % (e,))
+        return ready, calls[before:]
+
+    R, E = 1, 4
+    for op in ops:
+        state['opno'] += 1
+        k = op[0]
+        out = None
+        if k == 'feed':
+            sl = slots[op[1]]
+            if sl is not None and sl['sock'].state == 'connected':
+                peer = sl['sock'].rx.writer
+                try:
+                    peer.send(b'x')
+                except Exception:
+                    pass
+                net.deliver(sl['sock'].rx.pid, 0)
+        elif k == 'rst':
+            sl = slots[op[1]]
+            if sl is not None and sl['sock'].state == 'connected' and sl['sock'].conn.cid in net.conns:
+                net.inject_reset(sl['sock'].conn.cid, 0)
+        elif k == 'script':
+            script[op[1]] = (op[2], op[3])
+        elif k == 'poll':
+            ready, called = do_poll()
+            out = [(c[0], c[2]) for c in called]
+        dig.update(repr((op, out)).encode())
+        states.add(hash((tuple(sl is not None for sl in slots), len(subs), tuple(sorted(script)))))
+        if viol:
+            break
+    if not viol:
+        # level-triggered: whatever is subscribed and ready is reported by the next poll
+        script.clear()
+        ready, called = do_poll()
+        got = set(c[1] for c in called)
+        for fd in ready:
+            if fd in subs and fd not in got:
+                flag('lost_event', 'descriptor %d is subscribed and readable but a poll without any interference did not call its callback' % fd)
+    res = dict(seed=seed, cfg=cfg, events=ops, n_events=state['opno'], sim_time=w.T, digest=dig.hexdigest(), violations=viol, cross=[],
+               probes=dict(stats, poller_batch_runs=1, callbacks_called=len(calls)), faults={}, net=dict(net.stats),
+               summary=dict(sent=0, delivered=0, bytes=0, drain_rounds=0), n_tick_exc=0, tick_exc=[], states=states, aborted=None,
+               wall=_time.time() - t0, nontrivial=bool(stats))
+    CTX.world = None
+    return res
+
+
 def run(seed, tier, cfg=None, events=None):
     rng = random.Random(seed)
     if cfg is None:
-        cfg = draw(rng, tier)
+        # one case in eight exercises the pollers alone (batches of events whose callbacks close or replace other descriptors)
+        cfg = draw_batch(rng, tier) if rng.random() < 0.125 else draw(rng, tier)
+    if cfg.get('kind') == 'pollerbatch':
+        if events is None:
+            events = gen_batch_ops(rng, cfg)
+        return execute_batch(seed, cfg, events)
     if events is None:
         events = gen_ops(rng, cfg)
     return execute(seed, cfg, events)
